@@ -39,6 +39,14 @@ RULE = ('random formulas (depth <= 4) over + - * / unary minus, integer powers, 
         'float scalars through floor/ceiling/// on every path against the array path; comparisons between equal values in '
         'different writing incl. reflected forms; fixed argument-type sequences on one object; parameters named like numpy '
         '/ generated-code / internal names; names the formula language reserves; 2-D vectors; Len/Broadcast. '
+        'Round 4: SESSIONS (several Expression objects and the steps made on them in one process, starting with emptied '
+        'module-level memos): equal-valued numbers of different types (float / numpy.float64 against numpy.int64 / '
+        'TimeType / Fraction / int) substituted through evaluate_symbolic in either order, across objects, in one mapping, '
+        'with the other access paths in between (det:xobj + random stream); MAGNITUDES: floor / ceiling / // on doubles '
+        'around 2**53 and 2**63 and tiny ones, scalar paths against arrays that fit / do not fit int64, big Python ints '
+        '(det:magn + random stream; exact criterion "every intermediate value is a double"); access paths found by the '
+        'coverage audit: pickle, repr, copy constructor, Expression.make, nested in sympy, sympy numbers as values, '
+        'arrays substituted symbolically (det:api, lenbc). '
         'Non-trivial = formula with >= 3 nodes; distinct = distinct canonical JSON.')
 TRUSTED = [
     'Coq 8.16.1 kernel + vm_compute (no native_compute)',
@@ -53,7 +61,10 @@ ASSUMPTIONS = [
     'model has no types)',
     'a summation limit does not mention the summation index',
     'where the written formula divides by zero nothing is required (sympy may cancel the division)',
-    'float evaluations are required to be exact only when every intermediate value of the written formula is dyadic; '
+    'a float that meets a TimeType is read by its shortest decimal representation (TimeType.from_float, by design): '
+    'exact-mode / TimeType calls with a float argument whose repr() is another number are inexact by nature',
+    'float evaluations are required to be exact only when every intermediate value of the written formula is dyadic '
+    '(magnitude families: is a double); '
     'otherwise (also when the formula sympy holds after re-association has an intermediate value no double represents) '
     'a relative tolerance 2^-30 applies and the call is counted under inexact_calls',
     'TimeType scalars are not mixed with numpy arrays and not used in ExpressionVector (explicitly rejected by type)',
@@ -63,6 +74,9 @@ ASSUMPTIONS = [
 # ---------------------------------------------------------------------------------------------------------------------
 # generation
 
+JUMPS = {'floor', 'ceil', 'floordiv', 'lt', 'le', 'gt', 'ge', 'eq', 'ne', 'min', 'max'}
+
+
 def _types_of(scope):
     return {tv['ty'] for tv in scope.values()}
 
@@ -70,6 +84,8 @@ def _types_of(scope):
 def _usable(e, scope, path):
     """drop calls whose float evaluation sits on a discontinuity with an inexact argument (nothing exact to compare)"""
     sc, vc, arr = X.split_scope(scope)
+    if X.kinds(e) & JUMPS and _time_reads_float(e, scope, path):
+        return False
     pts = [sc] if not arr else [dict(sc, **{x: l[j] for x, l in arr.items()}) for j in range(len(next(iter(arr.values()))))]
     for p in pts:
         a = X.analyse(e, p, vc)
@@ -328,7 +344,90 @@ def gen_cases(rng, tier, ctx):
         calls = [{'path': p, 'scope': scope} for p in ['in_scope', 'exact'] if _usable(e, scope, p)]
         if calls:
             cases.append({'kind': 'eval', 'expr': e, 'route': 'str', 'calls': calls, 'malformed': what})
-    return _det_cases(tier) + [c for c in cases if not _fragile_case(c)]
+    rnd = [c for c in cases if not _fragile_case(c)]
+    return _det_cases(tier) + rnd + _session_stream(rng, 30 * mul) + _magn_stream(rng, 30 * mul)
+
+
+def _dbl(rng, big):
+    """a random value that is exactly a double: small, or m * 2**k with k near / beyond 53 and 63, or tiny"""
+    if not big:
+        return F(rng.randint(-60, 60), rng.choice([1, 1, 1, 2, 4]))
+    m = rng.choice([1, 1, 3, 5, 7, -1, -3, 2 ** 20 + 1])
+    k = rng.choice([50, 52, 53, 54, 60, 61, 62, 63, 64, 70, 100, -55, -60, -70])
+    return F(m) * F(2) ** k
+
+
+def _session_stream(rng, n):
+    """class (a), random: sessions over several objects in which numbers of EQUAL value and different types (float,
+    numpy float, numpy int, TimeType, Fraction, int) are substituted in random order, alone or in one mapping, with
+    evaluations through the other access paths in between"""
+    forms = [D.THIRD, D.SQ1, D.HALFSUM, D.MIXFL, ['b', 'add', ['b', 'mul', ['v', 'b'], ['c', '2/7', 'r']], ['v', 'b']],
+             ['b', 'sub', ['b', 'mul', ['v', 'b'], ['v', 'b']], ['b', 'div', ['v', 'b'], ['c', '5', 'i']]],
+             ['b', 'mul', ['b', 'add', ['v', 'b'], ['c', '1', 'i']], ['b', 'sub', ['v', 'b'], ['c', '1', 'i']]]]
+    out = []
+    for _ in range(n):
+        big = rng.random() < 0.4
+        val = _dbl(rng, big)
+        if val.denominator != 1:
+            val = F(int(val))
+        if abs(val) >= 2 ** 61:
+            val = F(2) ** 60 + rng.choice([0, 1024, 2 ** 40])
+        steps = []
+        for j in range(rng.randint(2, 6)):
+            ety = rng.choice(D.EXACT_TYS)
+            fty = rng.choice(D.FLOAT_TYS)
+            fl, ex = D.tv(fty, val), D.tv(ety, val)
+            r = rng.random()
+            obj = rng.choice(['o1', 'o2', 'o3', None])
+            if r < 0.3:        # the float, where its digits beyond the 15th cannot matter
+                steps.append(D._part(D.WARM, {'a': fl}, {'x': D.tv('int', -2 ** 62)}, 'in_scope', 'warm'))
+            elif r < 0.75:     # the exact number where exactness shows
+                e = rng.choice(forms)
+                sc = {'x': D.tv('int', 3)} if 'x' in X.fv(e) else {}
+                subs = {'b': ex}
+                if 'a' in X.fv(e) or rng.random() < 0.4:
+                    subs['a'] = fl
+                steps.append(D._part(e, subs, sc, rng.choice(['exact', 'exact', 'in_scope']),
+                                     None if obj is None else '%s:%d' % (obj, forms.index(e))))
+            elif r < 0.85:     # at once, on an object that may have been used before
+                e = rng.choice(forms[:3])
+                steps.append(D._ev(e, [(rng.choice(['exact', 'in_scope']), {'b': D.tv('time', val)}),
+                                       ('symfull', {'b': ex})], None if obj is None else '%s:%d' % (obj, forms.index(e))))
+            else:              # the float through a compiled path of another object
+                steps.append(D._ev(D.WARM, [(rng.choice(['in_scope', 'numeric', 'symfull']),
+                                             {'a': fl, 'x': D.tv('int', -2 ** 62)})], 'warm'))
+        steps = [st for st in steps if st['kind'] != 'partial' or not _fragile_case(st)]
+        if steps:
+            out.append({'kind': 'session', 'subs': steps, 'precise': True, 'family': 'rnd:xobj'})
+    return out
+
+
+def _magn_stream(rng, n):
+    """class (b), random: floor / ceiling / // and neighbours on doubles m * 2**k around 2**53 and 2**63 and tiny ones,
+    as scalars on every path and as arrays that mix entries which fit int64 with entries which do not"""
+    out = []
+    for _ in range(n):
+        name, e = rng.choice(D.MAGN_FORMS)
+        uses_t = 't' in X.fv(e)
+        calls = []
+        for j in range(rng.randint(2, 5)):
+            t = rng.choice([F(1, 2), F(1), F(2), F(1, 4), F(-1)])
+            if rng.random() < 0.5:
+                sc = {'a': D.tv(rng.choice(['float', 'npfloat']), _dbl(rng, rng.random() < 0.8))}
+                if uses_t:
+                    sc['t'] = D.tv('float', t)
+                calls.append({'path': rng.choice(['in_scope', 'numeric', 'exact', 'serial']), 'scope': sc})
+            else:
+                sc = {'a': {'ty': 'arrf', 'v': [str(_dbl(rng, rng.random() < 0.6)) for _ in range(rng.randint(1, 5))]}}
+                if uses_t:
+                    sc['t'] = D.tv('float', t)
+                calls.append({'path': 'array', 'scope': sc})
+        with X.precision(True):
+            calls = [c for c in calls if _usable(e, c['scope'], c['path'])]
+        if calls:
+            out.append({'kind': 'eval', 'expr': e, 'route': 'str', 'calls': calls, 'history': True, 'precise': True,
+                        'family': 'rnd:magn:' + name})
+    return out
 
 
 def _det_cases(tier):
@@ -336,12 +435,13 @@ def _det_cases(tier):
     argument are dropped by the same rule as in the random stream"""
     out = []
     for c in D.det_cases(tier, _usable):
-        if c['kind'] == 'eval':
-            c = dict(c, calls=[cl for cl in c['calls'] if _usable(c['expr'], cl['scope'], cl['path'])])
-            if not c['calls']:
+        with X.precision(c.get('precise')):
+            if c['kind'] == 'eval':
+                c = dict(c, calls=[cl for cl in c['calls'] if _usable(c['expr'], cl['scope'], cl['path'])])
+                if not c['calls']:
+                    continue
+            elif c['kind'] != 'session' and _fragile_case(c):
                 continue
-        elif _fragile_case(c):
-            continue
         out.append(c)
     return out
 
@@ -571,6 +671,15 @@ def _run_lenbc(case):
             return ExpressionScalar(ex.get_serialization_data()).evaluate_in_scope(kw)
         if p == 'twice':
             ex.evaluate_in_scope(kw)
+        if p == 'symarr':      # the array values first, symbolically (as arrays and as lists), the numbers later
+            arrs = {x: val for x, val in kw.items() if isinstance(val, np.ndarray)}
+            ex2 = ex.evaluate_symbolic(arrs)
+            ex3 = ex.evaluate_symbolic({x: val.tolist() for x, val in arrs.items()})
+            rest = {x: val for x, val in kw.items() if x not in arrs}
+            r2, r3 = ex2.evaluate_in_scope(rest), ex3.evaluate_in_scope(rest)
+            if not np.array_equal(np.asarray(r2, dtype=float), np.asarray(r3, dtype=float)):
+                raise ValueError('arrays and lists substitute differently')
+            return r2
         return ex.evaluate_in_scope(kw)
     return {'obs': _guard(run)}
 
@@ -660,6 +769,38 @@ def _call(ex, path, scope):
         return _guard(lambda: ex.evaluate_symbolic(kw).evaluate_in_scope({}))
     if path == 'serial':
         return _guard(lambda: ExpressionScalar(ex.get_serialization_data()).evaluate_in_scope(kw))
+    # round 4 (coverage audit): the other ways an expression is copied / stored / rebuilt, and sympy numbers as values
+    if path == 'pickle':
+        import pickle
+        return _guard(lambda: pickle.loads(pickle.dumps(ex)).evaluate_in_scope(kw))
+    if path == 'repr':
+        return _guard(lambda: eval(repr(ex), {'ExpressionScalar': ExpressionScalar}).evaluate_in_scope(kw))
+    if path == 'copy':
+        import copy
+        return _guard(lambda: copy.deepcopy(ExpressionScalar(ex)).evaluate_in_scope(kw))
+    if path == 'make':
+        from qupulse.expressions import Expression
+
+        def run():
+            e2 = Expression.make({'expression': ex.get_serialization_data()})
+            e3 = Expression(Expression.make(e2))
+            if not isinstance(e3, ExpressionScalar) or hash(e3) != hash(ex) or e3 != ex:
+                raise TypeError('Expression.make changed the expression')
+            return e3.evaluate_in_scope(kw)
+        return _guard(run)
+    if path == 'symscope':
+        import sympy
+
+        def conv(x):
+            if isinstance(x, (bool,)) or type(x).__name__ in ('TimeType', 'ndarray'):
+                return x
+            if isinstance(x, int) or type(x).__name__ == 'int64':
+                return sympy.Integer(int(x))
+            return sympy.Float(float(x))
+        return _guard(lambda: ex.evaluate_in_scope({x: conv(val) for x, val in kw.items()}))
+    if path == 'nested':     # the expression used as a sympy object inside another one
+        import sympy
+        return _guard(lambda: ExpressionScalar(sympy.sympify(ex) + 0).evaluate_in_scope(kw))
     raise ValueError(path)
 
 
@@ -671,15 +812,48 @@ def run_impl(case):
         return _run_impl(case)
 
 
-def _run_impl(case):
+def _fresh_process_state():
+    """a session starts like a fresh process: every module-level memo of the expression modules is emptied (whatever
+    their names are), so that the ORDER of the session's own steps decides what the process-global caches hold"""
+    import importlib
+    for mn in ('qupulse.utils.sympy', 'qupulse.expressions.sympy', 'qupulse.expressions', 'qupulse.utils.types'):
+        try:
+            m = importlib.import_module(mn)
+        except Exception:
+            continue
+        for nm in dir(m):
+            f = getattr(m, nm, None)
+            if callable(getattr(f, 'cache_clear', None)):
+                try:
+                    f.cache_clear()
+                except Exception:
+                    pass
+
+
+def _run_impl(case, objs=None):
     from qupulse.expressions import ExpressionScalar, ExpressionVector, Expression
     k = case['kind']
+    if k == 'session':
+        # several Expression objects and call histories on them in ONE process, in the listed order
+        _fresh_process_state()
+        shared = {}
+        return {'subs': [_run_impl(sub, shared) for sub in case['subs']]}
+
+    def obtain(mk):
+        """the object of this (sub-)case: inside a session a step may name an object created by an earlier step"""
+        key = case.get('obj')
+        if objs is not None and key is not None and key in objs:
+            return objs[key], None
+        ex, bad = _construct(mk)
+        if bad is None and objs is not None and key is not None:
+            objs[key] = ex
+        return ex, bad
     if k == 'reserved':
         return _run_reserved(case)
     if k == 'lenbc':
         return _run_lenbc(case)
     if k == 'eval':
-        ex, bad = _construct(lambda: _make(case['expr'], case['route']))
+        ex, bad = obtain(lambda: _make(case['expr'], case['route']))
         if bad is not None:
             return bad if ('hang' in bad or 'crash' in bad) else {'vars': [], 'obs': [bad for _ in case['calls']]}
         out = {'vars': sorted(X.unrn(str(v)) for v in ex.variables), 'obs': [], 'impl_expr': _readback(ex)}
@@ -689,7 +863,7 @@ def _run_impl(case):
             out['serial_equal'] = _guard(lambda: ExpressionScalar(ex.get_serialization_data()) == ex)
         return out
     if k == 'partial':
-        ex, bad = _construct(lambda: _make(case['expr'], case['route']))
+        ex, bad = obtain(lambda: _make(case['expr'], case['route']))
         if bad is not None:
             return bad if ('hang' in bad or 'crash' in bad) else {'obs': bad}
         subs = {}
@@ -796,6 +970,18 @@ def _run_impl(case):
                 return ev2.evaluate_in_scope(kw)
             if p == 'symfull':
                 return ev.evaluate_symbolic(kw).evaluate_in_scope({})
+            if p in ('pickle', 'repr'):
+                import pickle
+                ev2 = pickle.loads(pickle.dumps(ev)) if p == 'pickle' else \
+                    eval(repr(ev), {'ExpressionVector': ExpressionVector})
+                if not isinstance(ev2, ExpressionVector) or not (ev2 == ev) or hash(ev2) != hash(ev) or \
+                        str(ev2) != str(ev):
+                    raise TypeError('round trip changed the vector')
+                return ev2.evaluate_in_scope(kw)
+            if p == 'symscope':
+                import sympy
+                return ev.evaluate_in_scope({x: (sympy.Integer(int(val)) if isinstance(val, int) else
+                                                 sympy.Float(float(val))) for x, val in kw.items()})
             if p == 'item':
                 ev.evaluate_in_scope(kw)   # warm the per-item lambdas first
                 if case.get('shape'):      # row i is an ExpressionVector again
@@ -847,12 +1033,27 @@ def _tol(e, scope, path, impl_e=None):
     if path == 'exact' and _types_of(scope) <= {'int', 'time', 'arri'} and not X.has_fn(e) and not _has_float_const(e):
         return False, []
     pts = [sc] if not arr else [dict(sc, **{x: l[j] for x, l in arr.items()}) for j in range(len(next(iter(arr.values()))))]
-    tol, fnt = False, []
+    tol, fnt = _time_reads_float(e, scope, path, impl_e), []
     for p in pts:
         a = X.analyse(e, p, vc)
         tol = tol or a['inexact'] or _impl_inexact(impl_e, p, vc)
         fnt += a['fnt']
     return tol, fnt
+
+
+def _time_reads_float(e, scope, path, impl_e=None):
+    """TimeType arithmetic reads a float operand by its shortest decimal representation (TimeType.from_float, by
+    design): where a TimeType can meet a float (exact mode turns Rational constants into TimeType; TimeType arguments)
+    and some float argument / literal is not the number its repr() shows (4.611686018427388e+18 is 2**62), the call is
+    inexact by nature"""
+    if path != 'exact' and 'time' not in _types_of(scope):
+        return False
+    vals = [F(t['v']) for t in scope.values() if t['ty'] in ('float', 'npfloat', 'npf32')]
+    vals += [F(x) for t in scope.values() if t['ty'] == 'arrf' for x in t['v']]
+    for f in (e, impl_e):
+        if f is not None:
+            vals += [F(s[1]) for s in X.subterms(f) if s[0] == 'c' and s[2] == 'f']
+    return any(X.repr_differs(q) for q in vals)
 
 
 def _impl_inexact(impl_e, sc, vc):
@@ -920,13 +1121,25 @@ def _typed_view(c, impl_e):
     return c['path'] == 'exact', ab[0], ab[1], tvc
 
 
+def _typed_claims(c, impl_e):
+    """does the typed unit case of this call require the exact value (the typed model computes int / TimeType)?"""
+    tvw = _typed_view(c, impl_e)
+    if tvw is None:
+        return False
+    try:
+        return X.typed_eval(tvw[1], tvw[2], tvw[3], exact=tvw[0])[1] in ('int', 'time')
+    except Exception:
+        return False
+
+
 def _g_typed(e, c, o, impl_e):
     tv = _typed_view(c, impl_e)
     if tv is None:
         return None
     ex, te, tsc, tvc = tv
     sc, vc, _ = X.split_scope(c['scope'])
-    tolf = bool(X.analyse(e, sc, vc)['inexact']) or _impl_inexact(impl_e, sc, vc)
+    tolf = bool(X.analyse(e, sc, vc)['inexact']) or _impl_inexact(impl_e, sc, vc) or \
+        _time_reads_float(e, c['scope'], c['path'], impl_e)
     gty = {'int': 'TInt', 'time': 'TTime', 'float': 'TFloat'}
     gsc = '[%s]' % '; '.join('(%d%%N, (%s, %s))' % (X.NID[x], X.gq(v), gty[t]) for x, (v, t) in sorted(tsc.items()))
     gvc = '[%s]' % '; '.join('(%d%%N, ([%s], %s))' % (X.NID[x], '; '.join(X.gq(v) for v in l), gty[t])
@@ -949,9 +1162,22 @@ def _b_expr(case):
 
 
 def to_coq(case, obs):
+    with X.precision(case.get('precise')):
+        return _to_coq(case, obs)
+
+
+def _to_coq(case, obs):
     k = case['kind']
     if _bad(obs):
         return '[CCrash]'
+    if k == 'session':
+        # the denotation has no history: every step is judged on its own, whatever happened before in the process
+        units = []
+        for sub, o in zip(case['subs'], obs['subs']):
+            with X.precision(sub.get('precise', case.get('precise'))):
+                t = _to_coq(sub, o).strip()
+            units.append(t[1:-1])
+        return '[%s]' % '; '.join(u for u in units if u.strip())
     if k in ('reserved', 'lenbc'):     # judged by py_spec (outside the Coq formula language)
         return '[CEval (Const 0) [] []]'
     if k == 'eval':
@@ -964,6 +1190,9 @@ def to_coq(case, obs):
             _, _, arr = X.split_scope(c['scope'])
             if o.get('err', '').startswith('nonnumeric') and 'Fraction' in o['err'] and 'frac' in _types_of(c['scope']):
                 units.append('(CEval %s %s [])' % (X.to_coq(e), ivars))    # Fractions are rejected by type, explicitly
+            elif o.get('err', '').startswith('nonnumeric') and c['path'] == 'symscope':
+                # sympy numbers as argument values: the right value or an explicit refusal of the (sympy typed) result
+                units.append('(CEval %s %s [])' % (X.to_coq(e), ivars))
             elif arr:
                 units.append(_g_arr_case(e, c['scope'], o, obs.get('impl_expr')))
             else:
@@ -1009,6 +1238,8 @@ def to_coq(case, obs):
             ca = X.subst({x: ['c', tv['v'], 'r'] for x, tv in case['a_subs'].items()}, ca)
         return '[CCmp %s %s %s %s %s]' % ({'lt': 'OLt', 'le': 'OLe', 'gt': 'OGt', 'ge': 'OGe'}[case['op']],
                                           X.to_coq(ca), X.to_coq(case['b']), impl, samples)
+    if k == 'vec' and case['path'] == 'symscope' and obs['obs'].get('err', '').startswith('nonnumeric'):
+        return '[CEval (Const 0) [] []]'      # (as for scalars: refused by type, explicitly)
     if k == 'vec':
         es = case['exprs']
         allv = es[0]
@@ -1038,8 +1269,40 @@ def _vecpartial_view(case):
 def _partial_view(case):
     """(substituted formula, exact?) of a partial case -- what the implementation finally evaluates"""
     se = X.subst(_subs_ast(case), case['expr'])
-    types = _types_of(case['scope']) | {s['num']['ty'] for s in case['subs'].values() if 'num' in s}
-    return se, (case['path'] == 'exact' and types <= {'int', 'time', 'arri'} and not _has_float_const(se))
+    sub_types = {s['num']['ty'] for s in case['subs'].values() if 'num' in s}
+    # a number substituted symbolically is sympified: numpy integers and Fractions become Integer / Rational exactly
+    # like int and TimeType do (round 4: the class "equal value, different exact type" of the substitution cache)
+    exact = case['path'] == 'exact' and _types_of(case['scope']) <= {'int', 'time', 'arri'} and \
+        sub_types <= {'int', 'time', 'npint', 'frac'} and not _has_float_const(se)
+    return se, (exact or _typed_exact(case))
+
+
+def _num_const(num):
+    return ['c', num['v'], 'f' if num['ty'] in ('float', 'npfloat', 'npf32') else 'r']
+
+
+def _typed_exact(case):
+    """round 4: the WRITTEN formula with the substituted numbers typed by their Python type (int / numpy int -> Integer,
+    TimeType / Fraction -> Rational, float -> Float), evaluated by the typed model in the mode of the call, has an exact
+    type (int / TimeType): then the exact value is required, whatever its magnitude (2**60 + 1 is not a double) --
+    unless the float evaluation sits on a jump with an inexact argument (floor(a/3 + b/3))"""
+    try:
+        if not _types_of(case['scope']) <= {'int', 'time', 'float', 'arri', 'arrf'}:
+            return False          # numpy scalars in the scope: fixed width arithmetic
+        sub_ast = {x: (s['expr'] if 'expr' in s else _num_const(s['num'])) for x, s in case['subs'].items()}
+        se = X.subst(sub_ast, case['expr'])
+        if X.has_fn(se):
+            return False
+        sc, vc, arr = X.split_scope(case['scope'])
+        if arr:
+            return False
+        a = X.analyse(se, sc, vc)
+        if a['fragile'] or 'value' not in a:
+            return False
+        tsc, tvc = X.typed_scope(case['scope'])
+        return X.typed_eval(se, tsc, tvc, exact=case['path'] == 'exact')[1] in ('int', 'time')
+    except Exception:
+        return False
 
 
 def _g_call_partial(case, full, o, impl_e=None):
@@ -1063,6 +1326,8 @@ def _exprs_of(case):
     k = case['kind']
     if k in ('reserved', 'lenbc'):
         return []
+    if k == 'session':
+        return [e for sub in case['subs'] for e in _exprs_of(sub)]
     if k in ('eval', 'partial'):
         return [case['expr']]
     if k == 'build':
@@ -1077,10 +1342,22 @@ def nontrivial(case, obs):
 
 
 def histogram_keys(case, obs):
+    with X.precision(case.get('precise')):
+        return _histogram_keys(case, obs)
+
+
+def _histogram_keys(case, obs):
     k = case['kind']
     keys = [k]
     if case.get('family'):
         keys.append('family:' + ':'.join(case['family'].split(':')[:2]))
+    if k == 'session':
+        keys.append('session:%d-steps:%d-objects' % (len(case['subs']), len({sub.get('obj', id(sub)) for sub in case['subs']})))
+        for sub, o in zip(case['subs'], obs.get('subs', [])):
+            keys += ['session:' + x for x in _histogram_keys(sub, o) if x.split(':')[0] in ('path', 'types', 'obs', 'partial', 'eval')]
+            if sub['kind'] == 'partial':
+                keys.append('session:subst-types:' + '+'.join(sorted({t['num']['ty'] for t in sub['subs'].values() if 'num' in t})))
+        return keys
     if k == 'lenbc':
         return keys + ['lenbc:' + case['path'], 'obs:' + _okind(obs.get('obs', {}))]
     if k == 'reserved':
@@ -1252,8 +1529,55 @@ def _name_capture(case, c, o):
     return _code_uses_as_function(case) or ('self' in real and c['path'] == 'numeric')
 
 
+NPKIND = {'int': 'py', 'time': 'py', 'frac': 'py', 'npint': 'np', 'arri': 'np', 'float': 'flt', 'npfloat': 'flt',
+          'npf32': 'flt', 'arrf': 'flt'}
+
+
+def _np_overflow(e, scope, impl_e=None):
+    """numpy-int-overflow, the class (see X.np_int_overflow), on the written formula (with the substituted numbers typed
+    by their Python type)"""
+    impl_e = None
+    sc, vc, arr = X.split_scope(scope)
+    n = len(next(iter(arr.values()))) if arr else 1
+    pts = []
+    for j in range(n):
+        p = {x: (q, NPKIND[scope[x]['ty']]) for x, q in sc.items()}
+        p.update({x: (l[j], NPKIND[scope[x]['ty']]) for x, l in arr.items()})
+        pts.append(p)
+    vk = {x: (l, NPKIND[scope[x]['ty']]) for x, l in vc.items()}
+    return any(f is not None and X.np_int_overflow(f, pts, vk, set(arr)) for f in (e, impl_e))
+
+
+def _digits15(e, scope, path, symbolic):
+    """float-15-digits, the class: a float INPUT with more than 15 significant decimal digits sits inside the formula
+    that is compiled / printed: a float literal of the written formula (e carries the symbolically substituted
+    numbers typed: a float number is an 'f' constant) or a float argument on the symbolic route"""
+    lits = [F(s[1]) for s in X.subterms(e) if s[0] == 'c' and s[2] == 'f']
+    if path == 'symfull':
+        lits += [F(t['v']) for t in scope.values() if t['ty'] in ('float', 'npfloat')]
+    return any(X.digits15_lossy(q) for q in lits)
+
+
+def _very_close(o, want):
+    try:
+        return 'val' in o and F(o['val']) != want and abs(F(o['val']) - want) <= F(1, 10 ** 14) * max(1, abs(want))
+    except Exception:
+        return False
+
+
+def _int_div_class(e, scope, path, impl_e, extra_types=()):
+    if not (_types_of(scope) | set(extra_types)) <= {'int', 'time', 'npint', 'arri', 'frac'}:
+        return False
+    try:
+        tsc, tvc = X.typed_scope(scope)
+        return X.int_div_inexact(e, tsc, tvc, path == 'exact')
+    except Exception:
+        return False
+
+
 def _classify_call(e, kinds, scope, path, route, o, exact_required, extra_types=(), symbolic=False, impl_e=None,
-                   parsed_parts=None):
+                   parsed_parts=None, typed_e=None):
+    typed_e = e if typed_e is None else typed_e
     sc, vc, arr = X.split_scope(scope)
     types = _types_of(scope) | set(extra_types)
     if arr:
@@ -1275,6 +1599,8 @@ def _classify_call(e, kinds, scope, path, route, o, exact_required, extra_types=
             return 'piecewise-eager'
         if o.get('err') == 'other:ValueError' and _mixed_shape_junction(e, set(arr)):
             return 'array-and-mixed-shapes'
+        if ('arr' in o or o.get('err') in ('other:OverflowError', 'other:TypeError')) and _np_overflow(typed_e, scope):
+            return 'numpy-int-overflow'
         return None
     a = X.analyse(e, sc, vc)
     if 'value' not in a and impl_e is not None and exact_required:
@@ -1292,6 +1618,13 @@ def _classify_call(e, kinds, scope, path, route, o, exact_required, extra_types=
         return 'timetype-piecewise'
     if 'value' not in a:
         return None
+    if ('val' in o or o.get('err') in ('other:OverflowError', 'other:TypeError')) and path != 'symfull' and \
+            _np_overflow(typed_e, scope):
+        return 'numpy-int-overflow'
+    if _very_close(o, a['value']) and not exact_required and _digits15(typed_e, scope, path, symbolic):
+        return 'float-15-digits'
+    if _very_close(o, a['value']) and path != 'symfull' and _int_div_class(typed_e, scope, path, impl_e, extra_types):
+        return 'int-div-through-float'
     if 'time' in types and 'ite' in kinds and o.get('ty') in ('TimeType', 'float', 'float64') and \
             _float_close(o, a['value']):
         return 'timetype-piecewise'      # the TimeType went through numpy.select as a float: inexact result
@@ -1313,36 +1646,64 @@ def _classify_call(e, kinds, scope, path, route, o, exact_required, extra_types=
 
 
 def classify(case, obs):
+    with X.precision(case.get('precise')):
+        return _classify(case, obs)
+
+
+def _partial_status(case, obs):
+    """'ok' | id of a known finding | None for one partial-substitution step"""
+    o = obs['obs']
+    se, exact = _partial_view(case)
+    if not X.capture_free(_subs_ast(case), case['expr']) and 'hang' not in o and 'crash' not in o:
+        # the class: a substituted term mentions the index of a Sum it lands under (guard capture_free of the
+        # Coq model is false) AND the observation is what the capturing substitution evaluates to
+        sc_, vc_, _ = X.split_scope(case['scope'])
+        a_ = X.analyse(se, sc_, vc_)
+        if not _fails(a_, True, o):
+            return 'subst-capture'
+    typed = X.subst({x: (t['expr'] if 'expr' in t else _num_const(t['num'])) for x, t in case['subs'].items()},
+                    case['expr'])
+    return _classify_call(se, X.kinds(se), case['scope'], case['path'], case['route'], o, exact, symbolic=True,
+                          impl_e=obs.get('impl_expr'), typed_e=typed,
+                          extra_types=[t['num']['ty'] for t in case['subs'].values() if 'num' in t])
+
+
+def _eval_status(case, obs):
+    """set of ids (None = not a listed finding) of the failing calls of one eval case"""
+    e = case['expr']
+    ids = set()
+    for c, o in zip(case['calls'], obs['obs']):
+        exact = c['path'] == 'exact' and _types_of(c['scope']) <= {'int', 'time', 'arri'} and \
+            not X.has_fn(e) and not _has_float_const(e)
+        exact = exact or (_typed_applicable(c, obs.get('impl_expr')) and not X.split_scope(c['scope'])[2])
+        exact = exact or _typed_claims(c, obs.get('impl_expr'))
+        r = _classify_call(e, X.kinds(e), c['scope'], c['path'], case['route'], o, exact, impl_e=obs.get('impl_expr'))
+        if r is None and _name_capture(case, c, o):
+            r = 'lambda-name-capture'
+        ids.add(r)
+    ids.discard('ok')
+    return ids
+
+
+def _classify(case, obs):
     """id of the known finding a rejected case belongs to (input class + what was observed), else None"""
     k = case['kind']
     try:
-        if k == 'eval':
-            e = case['expr']
+        if k == 'session':
             ids = set()
-            for c, o in zip(case['calls'], obs['obs']):
-                exact = c['path'] == 'exact' and _types_of(c['scope']) <= {'int', 'time', 'arri'} and \
-                    not X.has_fn(e) and not _has_float_const(e)
-                # sympy folded the decimal literals away (floor(-0.375) -> -1): the typed unit case requires exactness
-                exact = exact or (_typed_applicable(c, obs.get('impl_expr')) and not X.split_scope(c['scope'])[2])
-                r = _classify_call(e, X.kinds(e), c['scope'], c['path'], case['route'], o, exact,
-                                   impl_e=obs.get('impl_expr'))
-                if r is None and _name_capture(case, c, o):
-                    r = 'lambda-name-capture'
-                ids.add(r)
+            for sub, o in zip(case['subs'], obs['subs']):
+                with X.precision(sub.get('precise', case.get('precise'))):
+                    if sub['kind'] == 'eval':
+                        ids |= _eval_status(sub, o)
+                    elif sub['kind'] == 'partial':
+                        ids.add(_partial_status(sub, o))
             ids.discard('ok')
             return sorted(ids)[0] if ids and None not in ids else None
+        if k == 'eval':
+            ids = _eval_status(case, obs)
+            return sorted(ids)[0] if ids and None not in ids else None
         if k == 'partial':
-            o = obs['obs']
-            se, exact = _partial_view(case)
-            if not X.capture_free(_subs_ast(case), case['expr']) and 'hang' not in o and 'crash' not in o:
-                # the class: a substituted term mentions the index of a Sum it lands under (guard capture_free of the
-                # Coq model is false) AND the observation is what the capturing substitution evaluates to
-                sc_, vc_, _ = X.split_scope(case['scope'])
-                a_ = X.analyse(se, sc_, vc_)
-                if not _fails(a_, True, o):
-                    return 'subst-capture'
-            r = _classify_call(se, X.kinds(se), case['scope'], case['path'], case['route'], o, exact, symbolic=True,
-                               impl_e=obs.get('impl_expr'))
+            r = _partial_status(case, obs)
             return None if r == 'ok' else r
         if k in ('vec', 'vecpartial'):
             o = obs['obs']
@@ -1392,6 +1753,12 @@ def classify(case, obs):
 
 
 def py_spec(case, obs):
+    if case['kind'] == 'session':
+        for sub, o in zip(case['subs'], obs.get('subs', [])):
+            r = py_spec(sub, o)
+            if r is not None:
+                return r
+        return None
     if case['kind'] == 'reserved':
         return _reserved_spec(case, obs)
     if case['kind'] == 'lenbc':
@@ -1471,6 +1838,9 @@ def _reductions(case):
             need = X.fv(e2) | X.fvv(e2)
             if all(need <= set(c['scope']) for c in case['calls']):
                 out.append(dict(case, expr=e2))
+    elif k == 'session':
+        if len(case['subs']) > 1:
+            out.extend(dict(case, subs=case['subs'][:j] + case['subs'][j + 1:]) for j in range(len(case['subs'])))
     elif k == 'partial':
         for x in case['subs']:
             out.append(dict(case, subs={y: t for y, t in case['subs'].items() if y != x}))
@@ -1531,7 +1901,8 @@ MANIFEST = {
                   '(int / TimeType / float) has the value of the denotation and, under the executable guard '
                   'exact_guard, an exact type (refuted without it: int / int); round 3: the typed model covers both '
                   'printers (exact / numeric mode), Piecewise = numpy.select (no exactness claim) and decimal literals as '
-                  'float inputs.  That sympy-based evaluation equals the '
+                  'float inputs; round 4: a session over several objects is judged step by step (check_spec_app), the '
+                  'denotation has no process state.  That sympy-based evaluation equals the '
                   'denotation is a correspondence statement, checked on generated formulas x scopes x all access '
                   'paths, not proved.  sympy decides more comparisons than the model: their soundness is only tested.',
     'level_note': 'Trusted: Coq kernel, harness printers/generators, the sympy->AST reader that feeds the typed unit '
